@@ -76,7 +76,11 @@ func VH_C14() {
 	case 2:
 		lg.SetColorMode(false)
 	}
-	SetDefault(&logimp{lg})
+	if vBool() {
+		SetDefault(&logimp{lg})
+	} else {
+		SetDefault(lg) // a child or a fluent chain's result is an *Entry, not the root wrapper
+	}
 	ctx := context.Background()
 	std := logslog.New(&handler4LogSlog{&logimp{lg}})
 	bridge := NewLogLogger(&logimp{lg}, AlwaysLevel) // a severity the bridge forwards whatever its admission test (C15)
